@@ -172,6 +172,11 @@ impl IterableSet {
 
 impl fmt::Display for IterableSet {
     fn fmt(&self, f: &mut fmt::Formatter<'_>) -> fmt::Result {
-        write!(f, "{} in {}", self.var, *self.iterator)
+        match &*self.iterator {
+            PreExp::FunctionCall(_, call) => {
+                write!(f, "{} in {}", self.var, call.as_iterator_string())
+            }
+            iterator => write!(f, "{} in {}", self.var, iterator),
+        }
     }
 }
